@@ -3,9 +3,9 @@ package main
 // `govc check <Cxx>`: decide one property.
 
 import (
-	"os/exec"
 	"fmt"
 	"os"
+	"os/exec"
 	"path/filepath"
 	"sort"
 	"strconv"
@@ -84,6 +84,13 @@ func cmdCheck(w *World, args []string, tier string, verbose bool) int {
 		}
 		for _, invs := range ct.LoopInv {
 			for _, e := range invs {
+				if hasProp(e.Props, prop) {
+					relevant = true
+				}
+			}
+		}
+		for _, steps := range ct.LoopStep {
+			for _, e := range steps {
 				if hasProp(e.Props, prop) {
 					relevant = true
 				}
@@ -446,6 +453,7 @@ func deriveContract(base *Contract, name string) *Contract {
 		for k, v := range base.LoopDec {
 			ct.LoopDec[k] = v
 		}
+		ct.LoopStep, ct.LoopSnap = base.LoopStep, base.LoopSnap
 	}
 	return ct
 }
